@@ -159,6 +159,9 @@ func goReference(frags []Frag) []string {
 	seen := map[[32]byte]bool{}
 	for _, f := range frags {
 		k := key(f)
+		if f.GoOut != "" {
+			goRefCache[k] = f.GoOut
+		}
 		if _, ok := goRefCache[k]; !ok && !seen[k] {
 			seen[k] = true
 			missing = append(missing, f)
@@ -274,9 +277,9 @@ func numbered(src string) string {
 func TestC04_Programs(t *testing.T) {
 	vk.Run(t, vk.Spec[progCase]{
 		ID: "C04", Name: "TestC04_Programs",
-		Rule: "rapid: batch of 1..40 fragments from a typed grammar (integer arithmetic at every width, shifts, conversions, floats, strings/runes/bytes, slices with append/copy/reslice aliasing, arrays, maps, structs, pointers, methods and method values, embedding, interfaces, type switches and assertions, closures and per-iteration loop variables, defer/panic/recover, named results, labelled break/continue, goto, switch fallthrough, shadowing), rendered as one Go program (go build + run, go1.25) and one Gno program (GnoVM), compared fragment by fragment incl. panic class; non-trivial = some fragment exercises >=2 grammar categories; distinct by source hash",
+		Rule: "rapid: batch of 8..48 fragments (statement families taken in turn) from a typed grammar (integer arithmetic at every width, shifts, conversions, floats, strings/runes/bytes, slices with append/copy/reslice aliasing, arrays, maps, structs, pointers, methods and method values, embedding, interfaces, type switches and assertions, closures and per-iteration loop variables, defer/panic/recover, named results, labelled break/continue, goto, switch fallthrough, shadowing), rendered as one Go program (go build + run, go1.25) and one Gno program (GnoVM), compared fragment by fragment incl. panic class; non-trivial = some fragment exercises >=2 grammar categories; distinct by source hash",
 		Draw: func(rt *rapid.T) progCase {
-			n := rapid.IntRange(1, 40).Draw(rt, "nfrag")
+			n := rapid.IntRange(8, 48).Draw(rt, "nfrag")
 			var c progCase
 			for i := 0; i < n; i++ {
 				c.Frags = append(c.Frags, drawFrag(rt, i))
